@@ -31,6 +31,22 @@
 
 static struct evrrul_s STRM;
 
+/* echs_instant_sort() (WikiSort) is C20's subject, where it is shown to sort every array of
+ * up to 5 (thorough: 8) instants; here refill() hands it at most GRP_CCH_OFF-1 <= 3 of them,
+ * and it is cut (goto-instrument --replace-calls) for this insertion sort under the same
+ * order echs_instant_lt_p -- symbolic lengths make symex walk all of WikiSort otherwise */
+void c16_sort(echs_instant_t *restrict in, size_t nin)
+{
+	for (unsigned i = 1; i < GRP_CCH_OFF; i++) {
+		for (unsigned j = i; j > 0; j--) {
+			if (i < nin && echs_instant_lt_p(in[j], in[j - 1])) {
+				echs_instant_t t = in[j];
+				in[j] = in[j - 1], in[j - 1] = t;
+			}
+		}
+	}
+}
+
 void harness(void)
 {
 	struct rrulsp_s rr = {.freq = (echs_freq_t)FREQ, .count = -1, .inter = INTER, .until = echs_max_instant()};
